@@ -280,6 +280,9 @@ func (sc *scenario) step(allowNew bool) bool {
 // settle releases gates and sends until every actor is parked or done.
 func (sc *scenario) settle() {
 	for i := 0; i < 10000; i++ {
+		if sc.w.Panicked() {
+			return
+		}
 		if g := sc.actorsIn("gate"); len(g) > 0 {
 			sc.w.Release(pick(sc.rng, g))
 			continue
@@ -297,6 +300,9 @@ func (sc *scenario) settle() {
 // read to the end, then everybody leaves and all timeouts pass.
 func (sc *scenario) drain() {
 	w := sc.w
+	if w.Panicked() {
+		return
+	}
 	w.tr.Emit(common.Ev{"ev": "phase", "phase": "drain"})
 	// 1. let workers complete what they believe they are executing
 	for round := 0; round < 12; round++ {
@@ -377,7 +383,7 @@ func runTrace(t *testing.T, tr *common.Trace, idx int, steps int) {
 			sc.w.Predeclare("", "p1", limits, maxBG, 50, []uint32{1, 2})
 		}
 		for i := 0; i < steps; i++ {
-			if !sc.step(true) {
+			if sc.w.Panicked() || !sc.step(true) {
 				break
 			}
 		}
@@ -393,5 +399,77 @@ func TestRandom(t *testing.T) {
 	defer tr.Close()
 	for i := first; i < first+n; i++ {
 		runTrace(t, tr, i, steps)
+	}
+}
+
+// TestFairness: queue-order histories. Requests pile up while no worker
+// asks for work, then workers take tasks one at a time (with stickiness
+// windows, priorities, nested invocations, completions in between), so
+// that almost every Synchronize is a choice among several candidates.
+func TestFairness(t *testing.T) {
+	n := common.EnvInt("VERIF_N", 20)
+	tr := common.NewTrace("trace.ndjson")
+	defer tr.Close()
+	for i := 0; i < n; i++ {
+		idx := 5000 + i
+		synctest.Test(t, func(t *testing.T) {
+			rng := common.Rand(int64(idx))
+			tr.Emit(common.Ev{"ev": "reset", "trace": idx, "flavour": 4})
+			script := &rndScript{rng: rand.New(rand.NewSource(rng.Int63()))}
+			w := NewWorld(tr, DefaultConfig, script)
+			sc := &scenario{w: w, rng: rng, kinds: "fair", insts: []string{""}}
+			cfg := w.cfg
+			tr.Emit(common.Ev{"ev": "config", "update": int(cfg.ExecutionUpdateInterval / Unit), "no_waiter": int(cfg.OperationWithNoWaitersTimeout / Unit),
+				"queue": int(cfg.PlatformQueueWithNoWorkersTimeout / Unit), "busy": int(cfg.BusyWorkerSynchronizationInterval / Unit),
+				"idle": int(cfg.GetIdleWorkerSynchronizationInterval() / Unit), "retry": cfg.WorkerTaskRetryCount, "worker": int(cfg.WorkerWithNoSynchronizationsTimeout / Unit)})
+			limits := [][]int{{}, {3}, {3, 2}, {6, 1}}[rng.Intn(4)]
+			w.Predeclare("", "p1", limits, 0, 50, []uint32{1})
+			for k := 1; k <= 6; k++ {
+				w.AddAction(fmt.Sprintf("d%d", k), "p1", k%3 == 0)
+			}
+			nw := 1 + rng.Intn(3)
+			for k := 0; k < nw; k++ {
+				sc.worker(fmt.Sprintf("w%d", k+1), fmt.Sprintf("h%d", k+1), "", "p1", 1)
+			}
+			invs := [][]string{{"a", "t1"}, {"a", "t2"}, {"b", "t3"}, {"b", "t4"}, {"c", "t5"}}
+			prios := []int{0, 0, 0, 100, -100, 200}
+			clients := 0
+			submit := func() {
+				clients++
+				w.StartExecute(fmt.Sprintf("c%d", clients), pick(rng, w.actions), "", pick(rng, invs), pick(rng, prios))
+				sc.settle()
+			}
+			for k := 0; k < 3+rng.Intn(5); k++ {
+				submit()
+				if rng.Intn(3) == 0 {
+					w.Advance(1)
+				}
+			}
+			for step := 0; step < 40 && !w.Panicked(); step++ {
+				switch r := rng.Intn(10); {
+				case r < 6:
+					d := pick(rng, sc.workers)
+					if d.call != nil {
+						continue
+					}
+					if d.Executing != "" {
+						sc.complete(d, 0, 0)
+					} else {
+						sc.idle(d)
+					}
+				case r < 8:
+					if clients < 14 {
+						submit()
+					}
+				default:
+					w.Advance(1 + rng.Intn(3))
+				}
+				for _, tm := range w.DueTimers() {
+					w.Fire(tm)
+					sc.settle()
+				}
+			}
+			sc.drain()
+		})
 	}
 }
